@@ -1172,7 +1172,8 @@ class ArrayReduction(Reduction):
         func = cls.reduction_aggregate or cls.reduction_chunk
         result = func(inputs, **kwargs)
         if is_series_like(meta):
-            return type(meta)(result, name=meta.name, index=index)
+            # ``result`` is a float array: nullable input has a nullable result
+            return type(meta)(result, name=meta.name, index=index).astype(meta.dtype)
         else:
             return result
 
@@ -1211,7 +1212,8 @@ class Var(ArrayReduction):
 
     @classmethod
     def reduction_chunk(cls, x, skipna):
-        values = x.values.astype("f8")
+        # cast before taking the values: NA of nullable dtypes becomes NaN
+        values = x.astype("f8").values
         if skipna:
             return moment_chunk(
                 values, sum=chunk.nansum, numel=nannumel, keepdims=True, axis=(0,)
@@ -1261,7 +1263,7 @@ class Moment(ArrayReduction):
 
     @classmethod
     def reduction_chunk(cls, x, order):
-        values = x.values.astype("f8")
+        values = x.astype("f8").values
         return moment_chunk(values, order=order, axis=(0,), keepdims=True)
 
     @classmethod
